@@ -363,7 +363,7 @@ func checkCholHist(c cholHistCase) *vk.Failure {
 }
 
 func TestCholHist(t *testing.T) {
-	vk.Run(t, "cholhist", vk.Opts{Quick: 700, Thorough: 12000}, drawCholHist, checkCholHist)
+	vk.Run(t, "cholhist", vk.Opts{Quick: 2000, Thorough: 36000}, drawCholHist, checkCholHist)
 }
 
 // ---- LU.RankOne chains ----------------------------------------------------------------
@@ -595,5 +595,5 @@ func checkLUHist(c luHistCase) *vk.Failure {
 }
 
 func TestLUHist(t *testing.T) {
-	vk.Run(t, "luhist", vk.Opts{Quick: 500, Thorough: 10000}, drawLUHist, checkLUHist)
+	vk.Run(t, "luhist", vk.Opts{Quick: 1500, Thorough: 30000}, drawLUHist, checkLUHist)
 }
